@@ -545,7 +545,7 @@ func stdOracle(steps []StdStep, obs []StdObs) []core.Failure {
 			switch {
 			case onlyStaleExtra(o.Cache, want, stale):
 				// nothing is missing and everything that is too much was loaded by a configuration that
-				// was stopped with caddy.Stop (known finding: tls.Cleanup finds itself as its successor)
+				// was stopped with caddy.Stop (the defect fixed by /repo 985d095: tls.Cleanup found itself as its successor)
 				cls = "cert-cache-keeps-certificates-of-stopped-config"
 			case accepted:
 				cls = "cert-cache-differs-after-accepted-attempt"
